@@ -355,6 +355,21 @@ example :
     JsonDec.dec ⟨true, true⟩ t (.obj [(JsonDec.keyType, .num 5), ([98], .bool true), ([110], .obj [])]) = .err := by
   decide
 
+/-- Non-vacuity for the shapes added in round 6: a byte slice type with an object code held by value (`{key: "0x…"}`, bounds
+under validation), a type that decodes itself from a string (its registered validator refuses "bad" under validation), and what
+`JSONDecode` makes of texts that are not objects. -/
+example :
+    let c : JsonDec.Cfg := ⟨true, true⟩
+    JsonDec.dec c (.ohex [100] 1 3) (.obj [([100], .str [48, 120, 48, 49])]) = .ok ∧
+    JsonDec.dec c (.ohex [100] 1 3) (.obj [([100], .str [48, 120])]) = .err ∧
+    JsonDec.dec c (.ohex [100] 1 3) (.str [48, 120, 48, 49]) = .err ∧
+    JsonDec.dec c .cstr (.str [98, 97, 100]) = .err ∧ JsonDec.dec ⟨true, false⟩ .cstr (.str [98, 97, 100]) = .ok ∧
+    JsonDec.dec c .cstr (.num 1) = .err ∧ JsonDec.dec c .cnum (.num 1) = .ok ∧
+    JsonDec.decText c (.st none .nil) none = .err ∧ JsonDec.decText c (.st none .nil) (some (.arr [])) = .err ∧
+    JsonDec.decText c (.st none .nil) (some .null) = .ok ∧
+    JsonDec.decText c (.st none (.cons [97] .req .bool .nil)) (some .null) = .err := by
+  decide
+
 /-- **`JSONDecode` of any text**: whatever `encoding/json` makes of the text — not JSON at all, a top-level `null`, array
 or scalar, or an object of any shape — the call returns a value or an error. -/
 theorem C02_json_text_no_panic (validate : Bool) (t : JsonDec.JTy) (doc : Option JsonDec.Json) :
